@@ -20,6 +20,11 @@
      k="gend"     the pass is over (observer handler, priority -50, just before
                   the fallback generator); a = time budget left (units, rounded
                   up; -1 = unlimited)
+     k="gcut"     a pass that began never reached the observer at priority -50:
+                  some handler stopped the generate_events event (logged by the
+                  driver when tick() returns; now = the time of the pass).  For
+                  the monitor it ends the pass exactly like "gend": every live
+                  timer that was due must have fired in it
      k="disp"     the event of timer t was dispatched to the application
      k="idle"     the idle wait: a = requested timeout (units, rounded up;
                   Untimed for the fallback generator's wait(10000)), b = granted
@@ -78,7 +83,7 @@ Fail(P, ln) ==
          IF ~Known(P, ln.t) THEN "C09.unknown_timer"
          ELSE IF P.tm[ln.t].pend = 0 THEN "C09.spurious_dispatch"
          ELSE ""
-    [] ln.k = "gend" ->
+    [] ln.k \in {"gend", "gcut"} ->
          IF \E t \in DOMAIN P.tm : P.tm[t].st = "live" /\ ln.now >= P.tm[t].hi /\ ~P.tm[t].fired
          THEN "C09.missed" ELSE ""
     [] ln.k = "idle" ->
@@ -114,7 +119,7 @@ Apply(P, ln) ==
                           !.st = IF @ = "live" THEN "leaving" ELSE @])
     [] ln.k = "disp" /\ Known(P, ln.t) ->
          SetTm(P, ln.t, [P.tm[ln.t] EXCEPT !.pend = IF @ > 0 THEN @ - 1 ELSE 0])
-    [] ln.k = "gend" ->
+    [] ln.k \in {"gend", "gcut"} ->
          [P EXCEPT !.tm = [x \in DOMAIN P.tm |-> [P.tm[x] EXCEPT !.fired = FALSE]]]
     [] OTHER -> P
 
